@@ -1273,6 +1273,132 @@ def _replace_name(root, name, expr, own_only=False):
     R().visit(root)
 
 
+# ---- generators -> drivers -------------------------------------------------------------------------------------------
+
+def _gen_call(e, gens):
+    if isinstance(e, ast.Call) and isinstance(e.func, ast.Attribute) and isinstance(e.func.value, ast.Name) and e.func.value.id == "self" \
+            and e.func.attr in gens and not e.keywords and not any(isinstance(a, ast.Starred) for a in e.args):
+        return e.func.attr
+    return None
+
+
+def _unfold_comprehensions(block, gens):
+    """``X = [E for v in self._gen(...) if C]``  ->  ``X = []; for v in self._gen(...): if C: X.append(E)`` (same evaluation order; the
+    comprehension's variable becomes a local, which is only done when that name is not otherwise used in the block's function)."""
+    changed = False
+    out = []
+    for st in block:
+        tgt = val = None
+        if isinstance(st, ast.Assign) and len(st.targets) == 1 and isinstance(st.targets[0], ast.Name):
+            tgt, val = st.targets[0], st.value
+        elif isinstance(st, ast.AnnAssign) and isinstance(st.target, ast.Name) and st.value is not None:
+            tgt, val = st.target, st.value
+        if tgt is not None and isinstance(val, ast.ListComp) and len(val.generators) == 1 and not val.generators[0].is_async \
+                and _gen_call(val.generators[0].iter, gens) and isinstance(val.generators[0].target, ast.Name):
+            gen = val.generators[0]
+            init = ast.copy_location(ast.Assign(targets=[ast.Name(id=tgt.id, ctx=ast.Store())], value=ast.List(elts=[], ctx=ast.Load())), st)
+            app = ast.copy_location(ast.Expr(value=ast.Call(func=ast.Attribute(value=ast.Name(id=tgt.id, ctx=ast.Load()), attr="append", ctx=ast.Load()),
+                                                            args=[val.elt], keywords=[])), st)
+            body = [app]
+            for c in reversed(gen.ifs):
+                body = [ast.copy_location(ast.If(test=c, body=body, orelse=[]), st)]
+            loop = ast.copy_location(ast.For(target=gen.target, iter=gen.iter, body=body, orelse=[]), st)
+            out += [init, loop]
+            changed = True
+            continue
+        for fld in ("body", "orelse", "finalbody"):
+            blk = getattr(st, fld, None)
+            if isinstance(blk, list) and blk and isinstance(blk[0], ast.stmt) and not isinstance(st, FUNC_TYPES + (ast.ClassDef,)):
+                nb, ch = _unfold_comprehensions(blk, gens)
+                if ch:
+                    setattr(st, fld, nb)
+                    changed = True
+        out.append(st)
+    return out, changed
+
+
+def _drive_generators(block, gens, caller_names, counter):
+    """``for v in self._gen(args): BODY`` with a private generator method -> the generator's body with every ``yield E`` replaced by
+    ``v = E; BODY`` (the consumer runs between the yields exactly as before).  Only when this is exact: the generator never returns, every
+    yield is a statement outside try/with, BODY neither breaks out of nor `continue`s the consumer loop, no for-else."""
+    changed = False
+    out = []
+    for st in block:
+        name = _gen_call(st.iter, gens) if isinstance(st, ast.For) else None
+        if name and not st.orelse and isinstance(st.target, (ast.Name, ast.Tuple)):
+            gfn = gens[name]
+            def loop_exits(b):
+                for x in b:
+                    if isinstance(x, (ast.Break, ast.Continue)):
+                        return True
+                    if isinstance(x, (ast.For, ast.While, ast.AsyncFor) + FUNC_TYPES + (ast.ClassDef,)):
+                        continue
+                    for fld in ("body", "orelse", "finalbody"):
+                        if loop_exits(getattr(x, fld, []) or []):
+                            return True
+                    if any(loop_exits(h.body) for h in getattr(x, "handlers", []) or []):
+                        return True
+                return False
+            yields = [n for n in _own_nodes(gfn) if isinstance(n, (ast.Yield, ast.YieldFrom))]
+            stmt_yields = [n for n in _own_nodes(gfn) if isinstance(n, ast.Expr) and isinstance(n.value, ast.Yield)]
+            guarded = any(isinstance(a, (ast.Try, ast.With, ast.AsyncWith)) for y in stmt_yields for a in _ancestors_within(gfn, y))
+            params = [a.arg for a in gfn.args.args][1:]
+            ok = (len(yields) == len(stmt_yields) and yields and not guarded and not any(isinstance(n, ast.Return) for n in _own_nodes(gfn))
+                  and not loop_exits(st.body) and len(st.iter.args) == len(params) and all(_simple_arg(a) for a in st.iter.args)
+                  and not (gfn.args.vararg or gfn.args.kwarg or gfn.args.kwonlyargs or gfn.args.defaults))
+            if ok:
+                gbody = clone([s_ for s_ in gfn.body if not (isinstance(s_, ast.Expr) and isinstance(s_.value, ast.Constant) and isinstance(s_.value.value, str))])
+                tmp = ast.Module(body=gbody, type_ignores=[])
+                assigned = _assigned_names(tmp)
+                if any(p_ in {n.id for n in ast.walk(tmp) if isinstance(n, ast.Name) and isinstance(n.ctx, (ast.Store, ast.Del))} for p_ in params):
+                    ok = False
+            if ok:
+                consumer_names = {n.id for n in ast.walk(st) if isinstance(n, ast.Name)} | set(caller_names)
+                collide = {n for n in assigned if n in consumer_names}
+                if collide:
+                    counter[0] += 1
+                    ren = {n: f"{n}_{name.strip('_')}{counter[0]}" for n in collide}
+                    for n in ast.walk(tmp):
+                        if isinstance(n, ast.Name) and n.id in ren:
+                            n.id = ren[n.id]
+                tmp = _Subst(dict(zip(params, st.iter.args))).visit(tmp)
+
+                class _Y(ast.NodeTransformer):
+                    def visit_FunctionDef(self, node):
+                        return node
+                    visit_AsyncFunctionDef = visit_Lambda = visit_FunctionDef
+
+                    def visit_Expr(self, node):
+                        if isinstance(node.value, ast.Yield):
+                            val = node.value.value if node.value.value is not None else ast.Constant(value=None)
+                            bind = ast.copy_location(ast.Assign(targets=[clone(st.target)], value=val), node)
+                            for t_ in ast.walk(bind.targets[0]):
+                                if isinstance(t_, ast.Name):
+                                    t_.ctx = ast.Store()
+                            return [bind] + clone(st.body)
+                        return node
+                tmp = _Y().visit(tmp)
+                for s_ in tmp.body:
+                    ast.fix_missing_locations(s_)
+                out += tmp.body
+                changed = True
+                continue
+        for fld in ("body", "orelse", "finalbody"):
+            blk = getattr(st, fld, None)
+            if isinstance(blk, list) and blk and isinstance(blk[0], ast.stmt) and not isinstance(st, FUNC_TYPES + (ast.ClassDef,)):
+                nb, ch = _drive_generators(blk, gens, caller_names, counter)
+                if ch:
+                    setattr(st, fld, nb)
+                    changed = True
+        for hd in getattr(st, "handlers", []) or []:
+            nb, ch = _drive_generators(hd.body, gens, caller_names, counter)
+            if ch:
+                hd.body = nb
+                changed = True
+        out.append(st)
+    return out, changed
+
+
 def _class_functions(cls: ast.ClassDef):
     """(container list, function) for every def directly owned by the class (through if/try blocks)."""
     out = []
@@ -1333,6 +1459,25 @@ def norm_class(ctx, rel: str, clsname: str, keep: Iterable[str] = ()) -> ast.Cla
     for n in ast.walk(mod.tree):
         if isinstance(n, ast.Attribute):
             mod_refs.setdefault(n.attr, []).append(n)
+    # generators -> drivers: private generator methods (not anchors, only ever called as self._g(...) in this class, not mentioned elsewhere)
+    gens = {}
+    for blk, f in _class_functions(cls):
+        if f.name in keep or not f.name.startswith("_") or f.name.startswith("__") or f.decorator_list or not _is_generator(f) or isinstance(f, ast.AsyncFunctionDef):
+            continue
+        refs = mod_refs.get(f.name, [])
+        if refs and all(isinstance(getattr(r, "_parent", None), ast.Call) and getattr(r, "_parent").func is r and isinstance(r.value, ast.Name) and r.value.id == "self"
+                        and mod.qualname(r).split(".")[0] == clsname for r in refs) and not _mentioned_elsewhere(ctx, rel, f.name):
+            gens[f.name] = f
+    if gens:
+        for blk, f in _class_functions(cls):
+            if f.name in gens:
+                continue
+            nb, ch = _unfold_comprehensions(f.body, gens)
+            if ch:
+                f.body = nb
+            nb, ch = _drive_generators(f.body, gens, _assigned_names(f) | {a.arg for a in f.args.args}, counter)
+            if ch:
+                f.body = nb
     for _round in range(4):
         funcs = _class_functions(cls)
         helpers = {}
